@@ -366,6 +366,7 @@ func c19RW(c *engine.Ctx, in []byte, args map[string]string) {
 		}
 		pos := 0
 		over := false
+		overran := false
 		var held [][]byte // byte strings returned earlier must keep their value
 		var heldWant []string
 		for i, o := range ops {
@@ -418,9 +419,26 @@ func c19RW(c *engine.Ctx, in []byte, args map[string]string) {
 					done()
 					return
 				}
+				if wd > 0 {
+					overran = true
+				}
+			}
+			if overran && r.Err() != io.EOF {
+				// the first failure is latched: later reads, also of zero bytes, do not clear it
+				c.Fail("error-not-latched", fmt.Sprintf("%s: Err()=%v after an earlier read had run past the end (want io.EOF to stay)", desc(i), r.Err()))
+				done()
+				return
 			}
 			if r.Pos() != int64(pos) || r.Len() != int64(t-pos) {
 				c.Fail("pos-len", fmt.Sprintf("%s: Pos()=%d Len()=%d, want %d and %d", desc(i), r.Pos(), r.Len(), pos, t-pos))
+				done()
+				return
+			}
+		}
+		if overran {
+			b0, s0 := r.ReadBytes(0), r.ReadString(0)
+			if len(b0) != 0 || s0 != "" || r.Err() != io.EOF {
+				c.Fail("error-not-latched", fmt.Sprintf("%s: after the over-run ReadBytes(0)/ReadString(0) give %q %q and Err()=%v (want io.EOF to stay)", desc(len(ops)), b0, s0, r.Err()))
 				done()
 				return
 			}
